@@ -95,6 +95,12 @@ pub struct Place {
     pub nl_after: bool,
     pub star: bool,
     pub indent: u8,
+    /// C-style block comments: open with `/**` (doc comment) instead of `/*`
+    #[serde(default)]
+    pub doc: bool,
+    /// Markdown comment forms on one line: put the comment inside a container (0 none, 1 `> `, 2 `- `, 3 `1. `, 4 `> - `)
+    #[serde(default)]
+    pub container: u8,
 }
 
 #[derive(Clone, Debug, Serialize, Deserialize, Hash, PartialEq, Eq)]
@@ -358,6 +364,8 @@ struct CommentSeg {
     lead: bool,
     trail: bool,
     star: bool,
+    doc: bool,
+    container: u8,
     parts: Vec<Part>,
 }
 
@@ -471,7 +479,7 @@ pub fn build_raw(lang: &Lang, events: &[Ev], crlf: bool) -> Built {
                     // newline-terminated statements: never two statements on one line
                     let one_stmt_per_line = matches!(lang.id, "go" | "swift" | "kotlin");
                     let trail = place.trail && form == Form::Block && has_inline && !(lead && one_stmt_per_line);
-                    segs.push(Seg::Comment(CommentSeg { form, indent: (place.indent % 9) as usize, lead, trail, star: place.star && lang.star, parts: part_for(form) }));
+                    segs.push(Seg::Comment(CommentSeg { form, indent: (place.indent % 9) as usize, lead, trail, star: place.star && lang.star, doc: place.doc && lang.star, container: place.container % 5, parts: part_for(form) }));
                 }
                 prev_was_tag = true;
             }
@@ -485,7 +493,7 @@ pub fn build_raw(lang: &Lang, events: &[Ev], crlf: bool) -> Built {
                 let k = *text as usize % (NOISE.len() + NOISE_UNCLOSED.len());
                 let raw = if k < NOISE.len() { NOISE[k] } else { NOISE_UNCLOSED[k - NOISE.len()] };
                 let t = sanitise_text(lang, form, raw);
-                segs.push(Seg::Comment(CommentSeg { form, indent: (*indent % 9) as usize, lead: false, trail: false, star: false, parts: vec![Part::Text(t)] }));
+                segs.push(Seg::Comment(CommentSeg { form, indent: (*indent % 9) as usize, lead: false, trail: false, star: false, doc: false, container: 0, parts: vec![Part::Text(t)] }));
                 prev_was_tag = false;
             }
             Ev::Decoy { tpl, tag } => {
@@ -531,7 +539,18 @@ pub fn build_raw(lang: &Lang, events: &[Ev], crlf: bool) -> Built {
                 }
             }
             Seg::Comment(c) => {
-                let ind = " ".repeat(if matches!(c.form, Form::MdRef(_) | Form::MdHtml) { c.indent % 4 } else if c.lead { 0 } else { c.indent });
+                let one_line = !c.parts.iter().any(|p| match p {
+                    Part::Newline => true,
+                    Part::Start(t) => render_start_tag(t).contains('\n'),
+                    _ => false,
+                });
+                let md_form = matches!(c.form, Form::MdRef(_) | Form::MdHtml);
+                let ind = if md_form && c.container != 0 && one_line {
+                    // a one-line Markdown comment inside a block quote / list item
+                    ["", "> ", "- ", "1. ", "> - "][c.container as usize].to_string()
+                } else {
+                    " ".repeat(if md_form { c.indent % 4 } else if c.lead { 0 } else { c.indent })
+                };
                 if lang.markdown && !out.ends_with(&format!("{nl}{nl}")) {
                     out.push_str(nl);
                 }
@@ -550,7 +569,7 @@ pub fn build_raw(lang: &Lang, events: &[Ev], crlf: bool) -> Built {
                     Form::Line(i) => (lang.line[i].to_string(), String::new()),
                     Form::Block => {
                         let (o, cl) = lang.block.unwrap();
-                        (o.to_string(), cl.to_string())
+                        (if c.doc && o == "/*" { "/**".to_string() } else { o.to_string() }, cl.to_string())
                     }
                     Form::MdRef(0) => ("[//]: # (".into(), ")".into()),
                     Form::MdRef(1) => ("[//]: # \"".into(), "\"".into()),
@@ -705,8 +724,10 @@ pub fn place_strategy() -> BoxedStrategy<Place> {
         proptest::bool::weighted(0.25),
         any::<bool>(),
         prop_oneof![3 => Just(0u8), 1 => 0u8..9],
+        proptest::bool::weighted(0.2),
+        prop_oneof![4 => Just(0u8), 1 => 1u8..5],
     )
-        .prop_map(|(form, join, lead, trail, pre, post, nl_before, nl_after, star, indent)| Place { form, join, lead, trail, pre, post, nl_before, nl_after, star, indent })
+        .prop_map(|(form, join, lead, trail, pre, post, nl_before, nl_after, star, indent, doc, container)| Place { form, join, lead, trail, pre, post, nl_before, nl_after, star, indent, doc, container })
         .boxed()
 }
 
